@@ -161,6 +161,70 @@ func init() {
 					rec(0)
 				}
 			}
+			// options left at zero take the defaults independently of each other
+			for _, dflt := range []struct{ rawI, rawP, effI, effP int }{{0, 1, int(defaultRestartIntensity), 1}, {2, 0, 2, int(defaultRestartPeriod)}} {
+				c09x = c09extra{raw: true, rawIntensity: dflt.rawI, rawPeriod: dflt.rawP}
+				p := int64(dflt.effP) * 1000
+				gaps := []int64{0, p / 2, p - 1, p + 1}
+				maxLen := dflt.effI + 2
+				seq := make([]int, maxLen)
+				var rec func(d int)
+				rec = func(d int) {
+					if d > 0 {
+						gaveUp := c09RunSupervisor(r, cfg, dflt.effI, dflt.effP, 0, gaps, seq[:d])
+						distinct[fmt.Sprint("default", dflt, seq[:d], gaveUp)] = true
+						r.Executions++
+						r.Transitions += d
+						if gaveUp {
+							return
+						}
+					}
+					if d == maxLen {
+						return
+					}
+					for g := range gaps {
+						if dflt.effI > 3 && g == 1 {
+							continue // (keeps the 5-failure case at 3^7 sequences)
+						}
+						seq[d] = g
+						rec(d + 1)
+					}
+				}
+				rec(0)
+				c09x = c09extra{}
+			}
+			// simple-one-for-one: children of a disabled spec that are being stopped are not failures
+			if typ == SupervisorTypeSimpleOneForOne {
+				for _, k := range []int{1, 2, 3} {
+					for intensity := 1; intensity <= 3; intensity++ {
+						c09x = c09extra{preDisable: k}
+						gaps := []int64{0, 500, 1001}
+						maxLen := intensity + 2
+						seq := make([]int, maxLen)
+						var rec func(d int)
+						rec = func(d int) {
+							if d > 0 {
+								gaveUp := c09RunSupervisor(r, cfg, intensity, 1, 0, gaps, seq[:d])
+								distinct[fmt.Sprint("disabled", k, intensity, seq[:d], gaveUp)] = true
+								r.Executions++
+								r.Transitions += d
+								if gaveUp {
+									return
+								}
+							}
+							if d == maxLen {
+								return
+							}
+							for g := range gaps {
+								seq[d] = g
+								rec(d + 1)
+							}
+						}
+						rec(0)
+						c09x = c09extra{}
+					}
+				}
+			}
 			r.States, r.Distinct = len(distinct), len(distinct)
 			r.Outcomes["sequences"] = len(distinct)
 			r.Samples = append(r.Samples, map[string]any{"type": cfg.name(), "intensity": "1..3", "period_s": 1, "gaps_ms": "0,500,999,1001,2000", "victim": "child a or b, 2 children"})
@@ -181,13 +245,30 @@ func countWithin(times []int64, period int) int {
 }
 
 // c09RunSupervisor crashes the victim child once per gap; returns true if the supervisor gave up
+// c09extra: rawIntensity/rawPeriod are what the spec says (0 = "use the default"); intensity/period passed to
+// c09RunSupervisor are the effective values the reference counts with. preDisable: that many further children of
+// the last spec are started and the spec is then disabled before the failures begin (simple-one-for-one only):
+// their requested terminations are not failures.
+type c09extra struct {
+	raw                     bool
+	rawIntensity, rawPeriod int
+	preDisable              int
+}
+
+var c09x c09extra
+
 func c09RunSupervisor(r *harn.Result, cfg c08cfg, intensity, period, victim int, gaps []int64, seq []int) (gaveUp bool) {
+	x := c09x
 	normalExits := victim / 10 // 10 => child c ends normally first, 20 => b and c
 	victim = victim % 10
 	vsched.RunOnce(10, func(ex *vsched.Exec) string {
 		spec := cfg.spec()
 		spec.Restart.Intensity = uint16(intensity)
 		spec.Restart.Period = uint16(period)
+		if x.raw {
+			spec.Restart.Intensity = uint16(x.rawIntensity)
+			spec.Restart.Period = uint16(x.rawPeriod)
+		}
 		st := newSys(spec)
 		st.run()
 		if cfg.typ == SupervisorTypeSimpleOneForOne {
@@ -199,6 +280,31 @@ func c09RunSupervisor(r *harn.Result, cfg c08cfg, intensity, period, victim int,
 			st.run()
 		}
 		down := map[int]bool{}
+		if x.preDisable > 0 && cfg.typ == SupervisorTypeSimpleOneForOne {
+			last := specNames[cfg.nchild-1]
+			st.guard(func() {
+				for i := 0; i < x.preDisable; i++ {
+					st.s.StartChild(last)
+				}
+			})
+			st.run()
+			st.guard(func() { st.s.DisableChild(last) })
+			st.run()
+			for guard := 0; guard < 20 && len(st.f.exitReq) > 0 && st.ended == nil; guard++ {
+				var ps []gen.PID
+				for p := range st.f.exitReq {
+					ps = append(ps, p)
+				}
+				sort.Slice(ps, func(i, j int) bool { return ps[i].ID < ps[j].ID })
+				st.f.die(ps[0], st.f.exitReq[ps[0]])
+				st.run()
+			}
+			down[cfg.nchild-1] = true
+			if st.ended != nil {
+				r.Fail("gave-up-too-early", "%s, intensity %d: the supervisor terminated (%v) when a spec with %d running children was disabled (no child failed)", cfg.name(), intensity, st.ended, x.preDisable+1)
+				return ""
+			}
+		}
 		for k := 0; k < normalExits; k++ {
 			i := cfg.nchild - 1 - k
 			pids := st.f.liveOf(specNames[i])
